@@ -292,6 +292,9 @@ class EGraph:
         for g in c.get("rgargs") or c.get("gargs") or []:
             if "closure" in g and g["closure"] in self.prog.bodies:
                 out.append(g["closure"])
+            elif "fndef" in g and g["fndef"] in self.prog.bodies and self.prog.inlinable({"rkey": g["fndef"]}):
+                # a crate-local fn item handed to an adaptor (`.any(WriteRequest::wants_sync)`) is called like a closure
+                out.append(g["fndef"])
         return out
 
     def _build(self, inst):
@@ -581,6 +584,8 @@ class EGraph:
                 if l - 1 < len(args):
                     return self.prov_operand(inst.parent, args[l - 1])
             if inst.kind == "closure":
+                if inst.body["kind"] != "Closure":
+                    return ("cl_arg", inst.id, l + 1)      # a fn item used as a callback has no environment argument
                 if l == 1:
                     return ("closure_env", inst.id)
                 return ("cl_arg", inst.id, l)
@@ -700,6 +705,13 @@ class EGraph:
             if guard > 200:
                 return None
             if el == "deref":
+                if path:
+                    # a reference stored in a field of a locally built aggregate: `match (a, &b) { (_, Ok(..)) => .. }`
+                    fld = self._agg_field_local(cur_inst, cur_l, path[0])
+                    if fld is None:
+                        return None
+                    cur_l, path = fld, path[1:]
+                    continue
                 r = self._pointee(cur_inst, cur_l)
                 if r is None and not path and self._is_symbolic_arg(cur_inst, cur_l):
                     # pointee of a pointer argument of the entry (an object we never see constructed): symbolic slot
@@ -721,6 +733,23 @@ class EGraph:
                 return None
             i += 1
         return (cur_inst.id, cur_l, path)
+
+    def _agg_field_local(self, inst, l, fname):
+        """local moved/copied into field `fname` of the aggregate that is the single definition of local l, else None"""
+        defs = self.prog.defs(inst.key).get(l, [])
+        if len(defs) != 1 or defs[0][0] != "s":
+            return None
+        st = inst.body["blocks"][defs[0][1]]["stmts"][defs[0][2]]
+        if st["k"] != "assign" or st["p"]["proj"] or st["rv"]["k"] != "agg":
+            return None
+        rv = st["rv"]
+        names = rv.get("fnames") or [str(i) for i in range(len(rv["fields"]))]
+        if fname not in names:
+            return None
+        o = rv["fields"][names.index(fname)]
+        if o.get("k") in ("copy", "move") and not o["p"]["proj"]:
+            return o["p"]["l"]
+        return None
 
     def _is_symbolic_arg(self, inst, l):
         """l is a pointer-typed parameter of an instance whose caller operand is unknown (entry / maybe-called closure)"""
@@ -775,6 +804,13 @@ class EGraph:
                 if r is None and self._is_symbolic_arg(inst, rv["a"]["p"]["l"]):
                     return (inst, {"l": rv["a"]["p"]["l"], "proj": ["deref"]})
                 return r
+            if rv["k"] == "use" and rv["a"]["k"] in ("copy", "move") and len(rv["a"]["p"]["proj"]) == 1 \
+                    and isinstance(rv["a"]["p"]["proj"][0], dict) and "f" in rv["a"]["p"]["proj"][0]:
+                # a reference read back out of a field of a locally built aggregate (tuple patterns)
+                el = rv["a"]["p"]["proj"][0]
+                fl = self._agg_field_local(inst, rv["a"]["p"]["l"], el.get("n") or str(el["f"]))
+                if fl is not None:
+                    return self._pointee(inst, fl)
             return None
         else:
             t = body["blocks"][d[1]]["term"]
